@@ -124,7 +124,8 @@ def muldiv_jobs(w, tier):
                   'multiplication by a word is the exact product', timeout=1500))
     out.append(mk(w, 'Divide', Q + '::Divide', C + '_Divide',
                   dict(requires=[S, wf(), 'divisor != 0'], ensures=[wf(), '%s == %s / (bv_t)divisor' % (V, OV), '(bv_t)__CPROVER_return_value == %s %% (bv_t)divisor' % OV], assigns=frame()),
-                  'division by a word gives the exact quotient and remainder', timeout=1500))
+                  'division by a word gives the exact quotient and remainder', timeout=1500, search_only=True, canary=False,
+                  bounded='time-bounded SAT search for a counterexample to the exact contract at 8-bit words (the proof does not finish in 1500 s)'))
     return out
 
 
@@ -174,7 +175,7 @@ def step_jobs(tier):
                                         assigns=['*dividend_high', '*dividend_low'])},
                         pre=pre, native_pre=npre, native_skip_ensures=(w > 32), solver='cadical', timeout=(900 if var != 64 else (100 if tier == 'quick' else 1800)), objbits=8,
                         must_have=['postcondition'] if var != 64 else [], cex_K=1, canary=(var != 64),
-                        search_only=(var == 64), bounded=('time-bounded SAT search for a counterexample (the proof of the 32-bit instance does not finish)' if var == 64 else None),
+                        search_only=(var == 64 or w >= 16), bounded=('time-bounded SAT search for a counterexample (the proof of this instance does not finish)' if (var == 64 or w >= 16) else None),
                         properties=(['%s.postcondition.2' % fn] if var == 64 else []),
                         clause='double-word divide step returns the exact quotient word and remainder of (high:low) / divisor'))
     return out
